@@ -53,7 +53,32 @@ def py_arg(arg, fn):
                     return CT[t] + " *", a, "buffer"
         if d is None and arg.id in pyfe.params(fn):
             return "int", arg, "pyint"     # a Python int is passed as C int by ctypes' default conversion
+        if d is not None and _intish(d, fn):
+            return "int", arg, "pyint"
+    if _intish(arg, fn):
+        return "int", arg, "pyint"
     return "?", arg, "unknown"
+
+
+def _intish(e, fn, depth=0):
+    """an expression that evaluates to a Python int: literals, parameters, len / int / min / max / abs of such, + - * // of such"""
+    if depth > 4:
+        return False
+    if isinstance(e, ast.Constant):
+        return isinstance(e.value, int) and not isinstance(e.value, bool)
+    if isinstance(e, ast.Name):
+        d = _local_def(fn, e.id)
+        if d is not None:
+            return _intish(d, fn, depth + 1)
+        return e.id in pyfe.params(fn)
+    if isinstance(e, ast.Call) and isinstance(e.func, ast.Name):
+        if e.func.id in ("len", "int"):
+            return True
+        if e.func.id in ("min", "max", "abs") and e.args:
+            return all(_intish(a, fn, depth + 1) for a in e.args)
+    if isinstance(e, ast.BinOp) and isinstance(e.op, (ast.Add, ast.Sub, ast.Mult, ast.FloorDiv, ast.Mod)):
+        return _intish(e.left, fn, depth + 1) and _intish(e.right, fn, depth + 1)
+    return False
 
 
 def rule_sig(ctx, R, only=None):
